@@ -85,7 +85,7 @@ func c13CondTags(dataParam types.Object, hdrLen string) func(pkg *packages.Packa
 }
 
 func checkC13(r *core.Run) {
-	r.Explain = "Decided statically on every CFG path of RpcPackageHandler.Read: (C13.header) every read from the buffer is dominated by len(data) >= 16 whose failing edge answers (nil, _, nil); (C13.total) body decoding and the success return are dominated by len(data) >= TotalLength, the consumed length returned is TotalLength, the incomplete edge answers a nil package with nil error; (C13.progress) a non-nil package is never returned unless TotalLength >= HeadLength >= 16 was established (consumed length cannot be 0); (C13.underflow) the unsigned subtractions HeadLength-16 and TotalLength-HeadLength and the slice data[HeadLength:] are dominated by the corresponding comparisons; (C13.mirror) the 16-byte header written by Write and read by Read have the same field widths and order and the fields map back onto the RpcMessage they came from, the header constant equals the sum of the widths, Write's lengths are the sums of the parts it emits, and in the head-map decoder the branch for an empty k-th string assigns only the k-th slot. NOT decided: behaviour over all partitions of a stream and the transport loop's reaction (getty) — dynamic."
+	r.Explain = "Decided statically on every CFG path of RpcPackageHandler.Read: (C13.header) every read from the buffer is dominated by len(data) >= 16 whose failing edge answers (nil, _, nil); (C13.total) body decoding and the success return are dominated by len(data) >= TotalLength, the consumed length returned is TotalLength, the incomplete edge answers a nil package with nil error; (C13.progress) a non-nil package is never returned unless TotalLength >= HeadLength >= 16 was established (consumed length cannot be 0); (C13.underflow) the unsigned subtractions HeadLength-16 and TotalLength-HeadLength and the slice data[HeadLength:] are dominated by the corresponding comparisons; (C13.mirror) the 16-byte header written by Write and read by Read have the same field widths and order and the fields map back onto the RpcMessage they came from, the header constant equals the sum of the widths, Write's lengths are the sums of the parts it emits, and in the head-map decoder the branch for an empty k-th string assigns only the k-th slot. (C13.copy) the length-prefixed string readers the body codecs use allocate a fresh buffer of the prefixed size and return a copy, and pkg/util/bytes does not import unsafe, so a returned message does not alias the session's receive buffer that later frames overwrite. NOT decided: behaviour over all partitions of a stream and the transport loop's reaction (getty) — dynamic."
 	r.Trusted = []string{"go/types, go/cfg", "getty: a nil package with nil error means 'need more data' and consumes nothing", "bytes helpers return zero on short input"}
 	w := r.W
 	h := w.NamedType("pkg/remoting/getty", "RpcPackageHandler")
@@ -195,6 +195,9 @@ func checkC13(r *core.Run) {
 		}
 	}
 	c13Mirror(r, rd, wr)
+	// messages returned by Read must not alias the transport's receive buffer: the string readers copy
+	c12Helpers(r, "C13.copy")
+	r.Floor("C13.copy", 8)
 	r.Floor("C13.header", 4)
 	r.Floor("C13.total", 4)
 	r.Floor("C13.underflow", 3)
